@@ -2,7 +2,7 @@
 //! Also hosts the round-trip driver shared with C19 (SQL dump).
 
 use crate::cmp::{self, attribute, diff_indexes, diff_tables, err_class, probe_diff, probes, run_probe, show_result, snapshot, Fmt, TmpDir};
-use crate::gen::{self, build_db, features, gen_db, is_awkward, is_c19_hazard, ty_class, DbSpec, GenOpts, Op};
+use crate::gen::{self, build_db, features, gen_db, is_awkward, is_c19_hazard, DbSpec, GenOpts, Op};
 use serde::{Deserialize, Serialize};
 use vcore::runner::truncate;
 use vcore::{Check, GenCfg, Obs, Tape, Tier, Verdict};
@@ -60,10 +60,6 @@ pub fn opts_from_known(cfg: &GenCfg, prop: &str, codec: &str) -> (GenOpts, bool)
         }
     }
     (o, probes)
-}
-
-pub struct RtOutcome {
-    pub verdict: Verdict,
 }
 
 /// What a round trip must preserve.
@@ -251,7 +247,6 @@ pub fn roundtrip(orig: &Database, log: &[String], rs: &RtSpec, obs: &mut Obs) ->
             obs.class("index_probes_run");
         }
     }
-    let _ = ty_class;
     Verdict::Pass
 }
 
